@@ -255,12 +255,66 @@ def conv_check(rep: Report, fi: FuncInfo, what: str, expr: ast.AST, var: str, wa
         rep.violation("BIPOLAR", fi, f"{what}: {unparse(expr)}", f"maps {got} instead of {want}: the output alphabet / polarity is wrong for bipolar inputs", node=node)
 
 
+#: the uniform draws handed to the evaluated forward (flip where the draw is below the probability 0.5) and its inputs
+BSC_DRAWS = [[0.1, 0.9, 0.3, 0.7], [0.8, 0.2, 0.6, 0.4]]
+BSC_INPUTS = ([[0, 1, 1, 0], [1, 0, 0, 1]], [[1, 1, 1, 1], [0, 0, 0, 0]], [[0, 0, 1, 1], [0, 1, 0, 1]])
+
+
+def bsc_evaluated(rep: Report, fi: FuncInfo) -> Optional[int]:
+    """The whole forward evaluated (own arithmetic over nested lists) on {0,1} and on -1/+1 words with the uniform draws
+    replaced by a fixed table: the output is the input with exactly the symbols at the drawn positions exchanged for the
+    other symbol of the input's alphabet.  Returns the number of obligations, None when the evaluator cannot follow the code."""
+    from ..constfold import Unfoldable
+    from ..frag import FragReturn, run_fragment
+
+    def shaped(t, **kw):
+        if not (isinstance(t, list) and len(t) == 2 and all(isinstance(r, list) and len(r) == 4 for r in t)):
+            raise ValueError("draws for another shape")
+        return [list(r) for r in BSC_DRAWS]
+
+    # a bool flip mask added arithmetically is a logical OR for bool-typed bits: outside the evaluator's (untyped) values
+    for s_ in stmts_of(fi.body):
+        if isinstance(s_, ast.Assign) and isinstance(s_.value, ast.Compare) and isinstance(s_.targets[0], ast.Name):
+            nm = s_.targets[0].id
+            if any(isinstance(b, ast.BinOp) and isinstance(b.op, (ast.Add, ast.Sub)) and any(isinstance(o, ast.Name) and o.id == nm for o in (b.left, b.right)) for b in ast.walk(fi.node)):
+                return None
+    bad = []
+    for bits in BSC_INPUTS:
+        for bipolar in (False, True):
+            x = [[(2 * b - 1 if bipolar else b) * 1.0 for b in r] for r in bits]
+            want = [[(b ^ (1 if d < 0.5 else 0)) for b, d in zip(r, dr)] for r, dr in zip(bits, BSC_DRAWS)]
+            want = [[(2 * b - 1 if bipolar else b) for b in r] for r in want]
+            try:
+                run_fragment(fi.body, {"x": x}, {"self.crossover_prob": 0.5}, ctors={"torch.rand_like": shaped}, max_steps=40000)
+                return None
+            except FragReturn as ret:
+                got = ret.value
+            except Unfoldable:
+                return None
+            if not (isinstance(got, list) and len(got) == 2 and all(isinstance(r, list) and len(r) == 4 and all(isinstance(v, (int, float)) and not isinstance(v, bool) for v in r) for r in got)):
+                return None
+            if [[float(v) for v in r] for r in got] != [[float(v) for v in r] for r in want]:
+                bad.append(f"x = {x[0]}..., flips drawn at {[[int(d < 0.5) for d in dr] for dr in BSC_DRAWS][0]}...: output {got[0]}... instead of {want[0]}...")
+    construct = "forward evaluated on {0,1} and -1/+1 words with a fixed table of uniform draws"
+    if bad:
+        rep.violation("TRANSITION", fi, construct, "the output is not the input with the drawn positions exchanged for the other symbol of the input's alphabet: " + "; ".join(bad[:2]), node=fi.node)
+    else:
+        rep.ok("TRANSITION", fi, construct, f"{2 * len(BSC_INPUTS)} words: a symbol changes exactly where the draw is below the probability, and stays in the input's alphabet ({{0,1}} or {{-1,+1}})", node=fi.node)
+    return 3
+
+
 def rule_bsc(repo: Repo, rep: Report) -> int:
     fi = repo.func(DG, "BinarySymmetricChannel.forward")
     n = bernoulli_sites(rep, fi, "self.crossover_prob")
     rep.floor("BSC Bernoulli sites", n, 1)
     inl = Inliner(fi)
     ys = [s for s in fi.body if isinstance(s, ast.Assign) and unparse(s.targets[0]) == "y"]
+    flag_ = [s for s in stmts_of(fi.body) if isinstance(s, ast.Assign) and isinstance(s.targets[0], ast.Name) and s.targets[0].id == "neg_one_format"]
+    if len(ys) != 1 or len(flag_) != 1:
+        # another spelling than the recognised one: decided by evaluation of the whole method
+        ne = bsc_evaluated(rep, fi)
+        if ne is not None:
+            return n + ne + rule_params(repo, rep, "BinarySymmetricChannel", "crossover_prob")
     if len(ys) != 1:
         rep.undecided("TRANSITION", fi, "y = ...", f"{len(ys)} top-level definitions of y")
     else:
